@@ -437,18 +437,18 @@ static void rsz_check(const Json& c, Out& o) {
     const char* fname = form == 0 ? "default" : form == 1 ? "n,beta" : "custom-h";
     std::string desc;
     try {
-        if (form == 0) { y = resample(x, p, q); desc = fmt("resample(x[%d], %d, %d)", len, p, q); }
+        if (form == 0) { desc = fmt("resample(x[%d], %d, %d)", len, p, q); y = resample(x, p, q); }
         else if (form == 1) {
             int n = r.range(1, 16);
             double beta = r.uni(0, 10);
-            y = resample(x, p, q, n, beta);
             desc = fmt("resample(x[%d], %d, %d, n=%d, beta=%.3f)", len, p, q, n, beta);
+            y = resample(x, p, q, n, beta);
         } else {
             int pc = (L == 1) ? M : L;
             int hlen = pick_hlen(r, pc, std::max(L, M), r.range(1, 2));
             arr_real h = make_sym_h(r, hlen, r.range(0, HS_NSHAPE - 1), std::max(L, M));
-            y = resample(x, p, q, h);
             desc = fmt("resample(x[%d], %d, %d, h[%d])", len, p, q, hlen);
+            y = resample(x, p, q, h);
         }
     } catch (const std::exception& e) {
         o.fail(std::string("resample:throws:") + fname, desc + " threw: " + e.what());
